@@ -267,7 +267,17 @@ func c13Handlers(c *Ctx) {
 			continue
 		}
 		n++
-		ex := c.Explore(fn, ExploreConfig{Inline: smallHandlerInline}, "small-handler")
+		// helpers are traversed when they are small or when they (three levels deep) touch what the rule
+		// reads: a sink, the grant-type gate, the default response mode or the nonce entropy; a long
+		// handler split into phases stays within the path bound because irrelevant phases stay opaque
+		relevant := append(append([]string{}, all...), ".GetGrantTypes", ".SetDefaultResponseMode", ".GetMinParameterEntropy")
+		inl := func(h *ssa.Function) bool {
+			if h.Parent() != nil {
+				return true
+			}
+			return handlerInline(h) && (len(h.Blocks) <= 14 && c.P.RefsMethod(h, 3, relevant...) || len(h.Blocks) <= 3)
+		}
+		ex := c.Explore(fn, ExploreConfig{Inline: inl}, "small-handler")
 		if !c.complete(ex, "C13.R2", "authorize", fn) {
 			continue
 		}
